@@ -18,6 +18,7 @@ import numpy as np
 
 from vlib import core
 from harness import mps_common as mc
+from harness import mps_extra as mx
 from harness.C08 import Dense, plain_ops, jw_ops
 
 sys.path.insert(0, str(core.ROOT / 'tools'))
@@ -142,6 +143,8 @@ def dense_permute(vec, sites, perm):
 
 
 def eval_case(case):
+    if case['kind'] == 'extra':
+        return mx.eval_c09(case)
     if case['kind'] == 'inf':
         return eval_inf(case)
     return eval_finite(case)
@@ -631,11 +634,17 @@ def eval_inf(case):
     return dict(oracle=oracle, lines=lines, compare=compare, nontrivial=True, hist=hist)
 
 
+ANCHOR_COVERAGE_NOTE = ("coverage round 2026-09-26 (measured outside the check, quick tier seed 0, coverage --branch on tenpy/networks/mps.py): this property's quick tier 36.9% -> 51.4% (lines 40.0% -> 54.3%, branches 29.4% -> 44.2%); C07+C08+C09 together 57.5% -> 83.5% (lines 61.2% -> 85.5%, branches 48.5% -> 78.6%). 14 extra mechanisms with dense oracles in harness/mps_extra.py (C09_SUBS); see notes/C09.md 'Coverage round'.")
+
+
 def run(ctx):
     res = core.Result()
+    res.extra['anchor_coverage_note'] = ANCHOR_COVERAGE_NOTE
     rng = ctx.sub_rng('cases')
     n = 200 if ctx.quick else 5000
     cases = corpus_cases() + gen_cases(rng, n, ctx.quick)
+    xr = ctx.sub_rng('extra')
+    cases += mx.gen_extras(xr, mx.C09_SUBS, 75 if ctx.quick else 1125)
     results, derrs = mc.run_cases(ctx, PROP, 'harness.C09', 'eval_case', cases,
                                   budget_s=ctx.budget_s * 0.8 if not ctx.quick else None)
     return mc.fold_results(res, results, derrs, PROP)
